@@ -10,7 +10,8 @@ JUDGE = True
 
 def describe(tier):
     return {
-        "rule": "all 65536 two-byte code points through split_cipher_suite, in 256 batches of 256; a case is non-trivial "
+        "rule": "all 65536 two-byte code points through split_cipher_suite, in 256 batches of 256, and through the suite selection of "
+                "a QUIC session (QuicSession.set_tls_decryptors, which has a table of its own: RFC 9001 allows 0x1301-0x1304 only); a case is non-trivial "
                 "if the code point is accepted; distinct = distinct accepted code points; outcomes = distinct parameter tuples",
         "exhaustive": True,
         "bounds": {"code_points": 65536},
@@ -28,6 +29,50 @@ def describe(tier):
 def cases(tier, seed):
     for hi in range(256):
         yield {"hi": hi}
+    for hi in range(0, 256, 8):
+        yield {"quic_hi": hi}
+
+
+QUIC_TABLE = {0x1301: ("AESGCM", 16, "SHA256"), 0x1302: ("AESGCM", 32, "SHA384"), 0x1303: ("ChaCha20Poly1305", 32, "SHA256"),
+              0x1304: ("AESCCM", 16, "SHA256")}        # RFC 9001 5.3: every TLS 1.3 suite except TLS_AES_128_CCM_8_SHA256
+
+
+def run_quic(case):
+    """the suite selection of a QUIC session (its own table) over all code points: accepted <=> one of the four suites
+    RFC 9001 allows, with the AEAD / key length / hash the name denotes; everything else must install no decryptor"""
+    from . import c16
+    fails, nontriv = [], []
+    n = 0
+    cr = bytes(range(32))
+    from tlexport.keylog_reader import Key
+    lines = [f"{lab} {cr.hex()} {'ab' * 48}" for lab in ("CLIENT_HANDSHAKE_TRAFFIC_SECRET", "SERVER_HANDSHAKE_TRAFFIC_SECRET",
+                                                           "CLIENT_TRAFFIC_SECRET_0", "SERVER_TRAFFIC_SECRET_0")]
+    keys = [Key(l) for l in lines]
+    from tlexport.quic.quic_decode import QuicVersion
+    for hi in range(case["quic_hi"], case["quic_hi"] + 8):
+        for lo in range(256):
+            code = (hi << 8) | lo
+            sess = c16.new_session()
+            sess.keylog = keys
+            sess.quic_version = QuicVersion.V1
+            n += 1
+            try:
+                sess.set_tls_decryptors(cr, bytes([hi, lo]))
+            except Exception as e:
+                fails.append({"kind": "quic_suite_selection_raised", "sig": {"code": f"{code:#06x}", "exc": type(e).__name__}})
+                continue
+            installed = "Handshake" in sess.decryptors or "Application" in sess.decryptors
+            if code in QUIC_TABLE:
+                want = QUIC_TABLE[code]
+                got = (getattr(sess.cipher, "__name__", None), sess.key_length, getattr(sess.hash_fun, "__name__", None))
+                if not installed or got != want:
+                    fails.append({"kind": "quic_suite_wrong_parameters", "sig": {"code": f"{code:#06x}"}, "detail": f"{got} installed={installed}, want {want}"})
+                else:
+                    nontriv.append(f"quic{code:#06x}")
+            elif installed:
+                fails.append({"kind": "quic_accepts_unsupported_suite", "sig": {"code": f"{code:#06x}"},
+                              "detail": "decryptors installed for a code point QUIC v1 does not allow"})
+    return {"n": n, "fails": fails, "nontrivial": nontriv, "outcomes": []}
 
 
 _reg = None
@@ -66,6 +111,8 @@ EXPECT_HASH = {"md5": "MD5", "sha1": "SHA1", "sha256": "SHA256", "sha384": "SHA3
 
 def run_case(case):
     m = harness.load()
+    if "quic_hi" in case:
+        return run_quic(case)
     import tlexport.cipher_suite_parser as csp
     hi = case["hi"]
     fails = []
